@@ -439,7 +439,7 @@ func genMbRequest(r *vlib.R, spec mbMapSpec) (byte, []byte) {
 
 func runC18(tier string, _ []string) int {
 	c := vlib.NewCtx("C18", tier, "exploration")
-	c.SetRule("requests: function codes 1,2,3,4,5,6,15,16 from structured generators (address and quantity at 0,1,limit-1,limit,limit+1,2040/2041,0x7FFF,0x8000,0xFFFF, straddling the end of each mapped range and 65535->0; byte counts off by one; validator-friendly and hostile values; truncations and extra bytes) plus raw random (function code 0..255, random data), replayed as a stateful sequence against 7 register maps (empty, sparse, dense, dense with validators, top of address space, coil top, coils only). Oracle: reference server written from the Modbus spec v1.1b3; compared: response PDU, error return, register file (addressed registers every request, the whole file every 64 requests). distinct = (map, model outcome class, actual outcome) Finally 3-8 goroutines call ProcessRequest on one register file at once (as the handlers of a TCP server do), each writing coils only it owns inside registers shared with the others, reading each back and comparing all at rest. About 3% of the steps extend the live register file between two requests (AddReg next to existing registers, AddCoil, a validator on an existing register); the model follows. Last, raw frames with header anomalies (MBAP length 0 / 1 / short / long, protocol id, truncated or over-long frames, RTU frames with good and bad CRC) are written to a running Server over TCP and RTU framing: the listener goroutine must not panic.")
+	c.SetRule("requests: function codes 1,2,3,4,5,6,15,16 from structured generators (address and quantity at 0,1,limit-1,limit,limit+1,2040/2041,0x7FFF,0x8000,0xFFFF, straddling the end of each mapped range and 65535->0; byte counts off by one; validator-friendly and hostile values; truncations and extra bytes) plus raw random (function code 0..255, random data), replayed as a stateful sequence against 7 register maps (empty, sparse, dense, dense with validators, top of address space, coil top, coils only). Oracle: reference server written from the Modbus spec v1.1b3; compared: response PDU, error return, register file (addressed registers every request, the whole file every 64 requests). distinct = (map, model outcome class, actual outcome) Finally 3-8 goroutines call ProcessRequest on one register file at once (as the handlers of a TCP server do), each writing coils only it owns inside registers shared with the others, reading each back and comparing all at rest. About 3% of the steps extend the live register file between two requests (AddReg next to existing registers, AddCoil, a validator on an existing register); the model follows. Last, raw frames with header anomalies (MBAP length 0 / 1 / short / long, protocol id, truncated or over-long frames, RTU frames with good and bad CRC) are written to a running Server over TCP and RTU framing: the listener goroutine must not panic. Finally the TCPServer itself: 3x its connection limit of sessions one after the other, each must be answered.")
 	c.Assume("tolerances: two simultaneous exception causes accept either code; truncated PDUs may get an exception or an error return; extra trailing bytes or a disagreeing byte-count byte with consistent length may be processed or refused with exception 3; multi-writes refused with an exception may leave addressed registers in any state")
 	nReq := c.N(600000, 20000000)
 	perSeq := 400
@@ -775,6 +775,59 @@ func runC18(tier string, _ []string) int {
 		c.Count("raw_frames_survived:"+kind, 1)
 		c.Distinct(fmt.Sprintf("raw %s len~%d", kind, len(frame)/8*8))
 	})
+	// ---- the TCP server over its lifetime: more sessions than its connection limit, one after the
+	// other (each connects, asks, is answered, disconnects); a closed session must give its slot back
+	vlib.SetPortBlock(18)
+	nSrv := c.N(3, 20)
+	for si := 0; si < nSrv && !vlib.Aborted(); si++ {
+		r := vlib.NewR(c.Seed, "c18tcpserver", si)
+		regs := &modbus.Regs{}
+		regs.AddReg(0, 8)
+		for a := 0; a < 8; a++ {
+			_ = regs.WriteReg(a, uint16(1000+a))
+		}
+		port, release := vlib.FreePort()
+		maxClients := 2 + r.Intn(3)
+		ts, err := modbus.NewTCPServer(1, maxClients, fmt.Sprint(port), regs, 0)
+		if err != nil {
+			release()
+			c.Inconclusive("TCP server does not start: " + err.Error())
+			continue
+		}
+		go ts.Listen(func(error) {}, func() {}, func() {})
+		sessions := 3*maxClients + r.Intn(4)
+		bad := ""
+		for q := 0; q < sessions && bad == ""; q++ {
+			conn, err := net.DialTimeout("tcp", fmt.Sprintf("127.0.0.1:%d", port), 5*time.Second)
+			if err != nil {
+				bad = fmt.Sprintf("session %d of %d (limit %d): connect: %v", q+1, sessions, maxClients, err)
+				break
+			}
+			cl := modbus.NewClient(modbus.NewTCP(conn, 3*time.Second, modbus.TransportClient), 0)
+			a := r.Intn(8)
+			got, err := cl.ReadHoldingRegs(1, uint16(a), 1)
+			c.Eval(1)
+			if err != nil || len(got) != 1 || got[0] != uint16(1000+a) {
+				bad = fmt.Sprintf("session %d of %d on a server with a limit of %d connections (all earlier sessions were closed): read of register %d answered %v %v", q+1, sessions, maxClients, a, got, err)
+			}
+			_ = cl.Close()
+			_ = conn.Close()
+			// the server notices the disconnect on its next read (its read deadline is 500 ms)
+			time.Sleep(time.Duration(20+r.Intn(60)) * time.Millisecond)
+			if q%maxClients == maxClients-1 {
+				time.Sleep(650 * time.Millisecond)
+			}
+		}
+		go func() { _ = ts.Close() }() // (Close can block on a handler that is just finishing: observation in DESIGN 3.3)
+		release()
+		if bad != "" {
+			c.Violate("modbus-server:no-answer-after-earlier-sessions", bad, map[string]any{"case": si, "seed": c.Seed, "limit": maxClients})
+			break
+		}
+		c.Count("tcp_server_lifetimes", 1)
+		c.Count("tcp_sessions_answered", int64(sessions))
+		c.Distinct(fmt.Sprintf("tcp server limit=%d", maxClients))
+	}
 	c.Require("outcome:norm", 500)
 	c.Require("outcome:exce", 500)
 	return c.Finish()
